@@ -106,6 +106,10 @@ struct PropDef {
 // Each harness defines this table (terminated by id == nullptr).
 extern const PropDef kProps[];
 
+// true iff `key` is listed as a known finding for the running property
+// (lets a harness probe a listed class rarely instead of on every case).
+bool isKnown(const std::string &key);
+
 // helper for building failure details
 struct Msg {
   std::ostringstream os;
